@@ -493,8 +493,11 @@ VARIANTS = [
             [(BH, "        k_p_lower = eq_single_u_tube.pipe.k / 100.0", "        k_p_lower = eq_single_u_tube.pipe.k / 1000.0")]),
     Variant("coaxial: outer wall resistance with the inner pipe's conductivity (seeded C15)", "break",
             [(BH, "        resist_pipe = log(r_out_out / r_out_in) / (TWO_PI * self.pipe.k[1])", "        resist_pipe = log(r_out_out / r_out_in) / (TWO_PI * self.pipe.k[0])")], "R15.3"),
-    Variant("grout objective without rebuilding the delta-circuit (repaired defect F14 returns)", "break",
-            [(BH, "            preliminary_new_single_u_tube.update_thermal_resistances(preliminary_new_single_u_tube.R_fp)\n            resist_bh_prime", "            resist_bh_prime")], "R15.4"),
+    Variant("F14 repaired: the grout objective and the final write rebuild the delta-circuit resistances", "repair",
+            [(BH, "            # Initialize stored_coefficients\n            resist_bh_prime", "            # Initialize stored_coefficients\n            preliminary_new_single_u_tube.update_thermal_resistances(preliminary_new_single_u_tube.R_fp)\n            resist_bh_prime"),
+             (BH, "        preliminary_new_single_u_tube.grout.k = k_g\n\n        return preliminary_new_single_u_tube", "        preliminary_new_single_u_tube.grout.k = k_g\n        preliminary_new_single_u_tube.update_thermal_resistances(preliminary_new_single_u_tube.R_fp)\n\n        return preliminary_new_single_u_tube")], "R15.4"),
+    Variant("F14 half repaired: only the objective rebuilds the circuit, the returned tube keeps the stale one", "repair",
+            [(BH, "            # Initialize stored_coefficients\n            resist_bh_prime", "            # Initialize stored_coefficients\n            preliminary_new_single_u_tube.update_thermal_resistances(preliminary_new_single_u_tube.R_fp)\n            resist_bh_prime")], "R15.4|ghedesigner.borehole_heat_exchangers.GHEDesignerBoreholeWithMultiplePipes.match_effective_borehole_resistance.<locals>"),
     Variant("equivalent tube computed for three tubes", "break", [(BH, "        # Compute equivalent single U-tube geometry\n        n = 2", "        # Compute equivalent single U-tube geometry\n        n = 3")], "R15.1"),
     Variant("pipe volume forgets to subtract the fluid volume", "break", [(BH, "        vol_pipe = n * pi * (self.r_out**2) - vol_fluid", "        vol_pipe = n * pi * (self.r_out**2)")], "R15.1"),
     Variant("SingleUTube.to_single returns a fresh tube", "break",
